@@ -209,12 +209,13 @@ func (e *DocumentError) SourceSubString() string {
 	begin := e.lineBeginning()
 	end := e.lineEnd()
 
-	if end-begin > maxLength {
-		end = begin + maxLength - 3
-		return string(content[begin:end].TrimSpacesFromLeft()) + "..."
+	// The indentation isn't shown: it doesn't count against the length of the line.
+	line := content[begin:end].TrimSpacesFromLeft()
+	if len(line) > maxLength {
+		return string(line[:maxLength-3]) + "..."
 	}
 
-	return string(content[begin:end].TrimSpacesFromLeft())
+	return string(line)
 }
 
 func (e *DocumentError) pointerToTheErrorCharacter() string {
